@@ -24,7 +24,7 @@ CLAIMS.update({
 
 CLAIMS.update({
     'C06': ('proof',
-            'The reduction in DESIGN.md §4/C06 is discharged on each run: the ordering check is executed abstractly over all 12 cases of (first key?, duplicate mode, key <,=,> last) and yields exactly the contract table with the right payloads; no builder state is written on a path to Err and the remembered key becomes the offered key on Ok; the builder-internal mutating routines are callable only from add/insert behind the check (whose result is propagated) and from the consuming finishers; all 14 front ends propagate the per-item error through `?`/return; set front ends reach add (no duplicate check) and map front ends insert; a repeated set key writes nothing. The claim for all call histories follows by induction.',
+            'The reduction in DESIGN.md §4/C06 is discharged on each run: the ordering check is executed abstractly over all 12 cases of (first key?, duplicate mode, key <,=,> last) and yields exactly the contract table with the right payloads; no builder state is written on a path to Err and the remembered key becomes the offered key on Ok; the builder-internal mutating routines are callable only from add/insert behind the check (whose result is propagated) and from the consuming finishers; all 14 front ends propagate the per-item error through `?`/return; set front ends reach add (no duplicate check) and map front ends insert; a repeated set key writes nothing and the empty-key path is idempotent (its stores do not depend on previous builder state). The claim for all call histories follows by induction.',
             'Trusts the lexicographic semantics of PartialEq/PartialOrd on byte slices as modelled by the ordering domain. "The finished FST contains exactly the accepted keys" additionally needs the value-level part of C01, which is not decided.',
             'abstract execution of MIR over a finite ordering domain + effect/who-may-call rules + def-use error flow', '§4 C06'),
     'C10': ('other',
@@ -32,7 +32,7 @@ CLAIMS.update({
             'Does not decide that every well-formed version-1/2 file answers every query according to its content: the tree has no encoder for those versions, and node decoding for them is covered only through the version guards (R10.3) and the shared layout rules of C09/C01.',
             'abstract execution of the constructor under linear constraints (Fourier-Motzkin) + guard/dominance rules', '§4 C10'),
     'C16': ('other',
-            'Decides the structural clauses: every output-accumulating descent of the reader that tests finality also reads the final output; the inverse lookup reports success only under "node final and final output = remaining value", each step subtracts the followed transition\'s output and appends its byte; get_key delegates on a fresh buffer; the caller\'s buffer is append-only.',
+            'Decides the structural clauses: every output-accumulating descent of the reader that tests finality also reads the final output; the inverse lookup reports success only under "node final and final output = remaining value", each step subtracts the followed transition\'s output and appends its byte, and is taken only from a node that was tested first (the root included); get_key delegates on a fresh buffer; the caller\'s buffer is append-only.',
             'Does not decide that choosing the last transition with output <= remaining value is correct for every monotone map: that depends on the builder\'s output-prefix arithmetic (argued in DESIGN.md, not checked).',
             'sibling-consistency rule + path-sensitive conditions on enumerated MIR paths', '§4 C16'),
 })
@@ -54,7 +54,7 @@ CLAIMS.update({
 
 CLAIMS.update({
     'C01': ('other',
-            'Decides structural necessary conditions of the round trip: layout agreement as two one-sided checks against the declarative format table (every section the three node encoders emit - order, direction, width argument, presence guard, max-width computation, index table - and every byte offset, width and guard of the reader accessors, Node::new wiring and Node::transition), integer packing thresholds and endianness, delta addressing, key-count accounting, tiling of node addresses, the single emission funnel, and each local step of the builder\'s output-prefix algebra.',
+            'Decides structural necessary conditions of the round trip: layout agreement as two one-sided checks against the declarative format table (every section the three node encoders emit - order, direction, width argument, presence guard, max-width computation, index table - and every byte offset, width and guard of the reader accessors, Node::new wiring and Node::transition), integer packing thresholds and endianness, delta addressing, key-count accounting, tiling of node addresses (with the byte counter counting exactly the accepted bytes), the single emission funnel, and each local step of the builder\'s output-prefix algebra.',
             'Does not decide the global invariant that the streamed (key, value) list equals the inserted one for all inputs (an inductive argument over the builder\'s stack and the reader\'s accumulation); the DFS/stream side is decided under C03. Trusts the transcription of the format table.',
             'emission-language reconstruction from MIR (dominance/control dependence), linear-form comparison of reader offsets with a declarative layout table, path-sensitive dataflow', '§4 C01'),
     'C02': ('other',
@@ -66,18 +66,18 @@ CLAIMS.update({
             '"A single altered byte is never certified" additionally uses the burst-error theorem for a degree-32 CRC and the bijectivity of the mask (cited, not re-derived); a rewrite of the CRC loop outside the table-driven family is reported as undecided.',
             'compile-time constant comparison against an independent generator + bit-provenance domain + path-sensitive MIR reconstruction + must-precede rules', '§4 C08'),
     'C09': ('other',
-            'Decides the writer half of the format against the declarative table: constants and common-input tables, state-byte tags/fields and sizes-byte nibbles (bit provenance), integer packing (thresholds, endianness), the emission language of every node encoder (order, direction, width, guard, max widths, index table, count byte for 256), form selection over all 48 consistent cases, delta addressing, header/footer words and order, and the checksum clause (tables, mask, coverage).',
+            'Decides the writer half of the format against the declarative table: constants and common-input tables, state-byte tags/fields and sizes-byte nibbles (bit provenance), integer packing (thresholds, endianness), the emission language of every node encoder (order, direction, width, guard, max widths, index table, count byte for 256), form selection over all 48 consistent cases, delta addressing, header/footer words and order (the footer count being the accounted number of keys), and the checksum clause (tables, mask, coverage).',
             '"Decoding by the spec yields exactly the inserted map" inherits the undecided value-level part of C01; the format table itself is a transcription of the format comments at the pinned revision.',
             'emission-language reconstruction from MIR + finite-domain enumeration + bit-provenance + constant comparison', '§4 C09'),
     'C15': ('proof',
-            'Each premise is discharged on every run: every construction entry point reaches emission only through the gates new/add/insert/finish, add and insert share one inserting routine, builders are created by a single constructor with literal cache geometry and type word; no nondeterministic std effect (keyed hashing, hash-container iteration, time, env, thread/process identity, atomics, pointer-to-integer casts) is reachable from any entry point and the library has no mutable/thread-local static; the cache bucket function is closed arithmetic over node fields and the cache holds no hasher state. The emitted bytes are therefore a function of the sequence of gate calls.',
+            'Each premise is discharged on every run: every construction entry point reaches emission only through the gates new/add/insert/finish, add and insert share one inserting routine, builders are created by a single constructor with literal cache geometry and type word; no nondeterministic std effect (keyed hashing, hash-container iteration, time, env, thread/process identity, atomics, pointer-to-integer casts) is reachable from any entry point and the library has no mutable/thread-local static; the cache bucket function is closed arithmetic over node fields and the cache holds no hasher state; rejected calls leave no trace (the check-before-mutate and duplicate-mode rules of C06 are re-decided here). The emitted bytes are therefore a function of the sequence of gate calls.',
             'Trusts the deny-list of nondeterministic std APIs; calls into user code are outside the property. That add(k) and insert(k, 0) emit the same bytes is argued in DESIGN.md (the output-pushing branch is the identity for zero outputs), not decided.',
             'call-graph reachability with gates + effect classification of resolved callees + constructor/argument provenance', '§4 C15'),
 })
 
 CLAIMS.update({
     'C12': ('other',
-            'Decides the structural clauses of node sharing: in the node compiler every encoder call is preceded by a cache lookup of that very node that missed, a miss records the new address in the returned cell, a hit returns the cached address without emitting; a hit requires an occupied cell whose node equals the probe under the derived all-fields equality, and the bucket function reads exactly the compared fields; the cache has positive literal geometry, its table is sized only in the constructor, the bucket is hash mod the row count and a row is [stride*bucket, +stride); under the MRU moves (swap / rotate-to-front as a permutation domain) the refreshed cell is the cell handed back; the compiler is called once per frozen node and once for the root.',
+            'Decides the structural clauses of node sharing: in the node compiler every encoder call is preceded by a cache lookup of that very node that missed, a miss records the new address in the returned cell, a hit returns the cached address without emitting; a hit requires an occupied cell whose node equals the probe under the derived all-fields equality, and the bucket function reads exactly the compared fields; the cache has positive literal geometry, its table is sized only in the constructor and the cache is never replaced after construction, the bucket is hash mod the row count and a row is [stride*bucket, +stride); under the MRU moves (swap / rotate-to-front as a permutation domain) the refreshed cell is the cell handed back; the compiler is called once per frozen node and once for the root.',
             'Does not decide minimality, the trie bound or sharing ratios as quantities (they need the run-time contents of the cache and the classical minimal-acyclic-automaton argument); "no eviction" is a precondition of the property.',
             'path-sensitive MIR rules (must-precede, def-use of the returned cell) + permutation domain + constant/field provenance', '§4 C12'),
     'C13': ('other',
@@ -93,7 +93,7 @@ CLAIMS.update({
             'Does not decide that Str accepts exactly its string or Subsequence exactly the supersequences as languages over all byte strings (only the advance/stay conditions and hint classes).',
             'Boolean truth-table reconstruction from short-circuit CFGs + exhaustive propositional entailment', '§4 C18'),
     'C19': ('other',
-            'Decides structural necessary conditions in fst-bin: temp-file name templates are injective in (phase, generation, index) with index = enumerate counter and generation = per-round counter; the registered value mergers are +, max, min and the union fold is seeded with the first value; equal keys are resolved only through the merger in both phases, no pair de-duplication, no builder error swallowed; no mutable statics or unsafe Send/Sync, the collector drops its sender before draining.',
+            'Decides structural necessary conditions in fst-bin: temp-file name templates are injective in (phase, generation, index) with index = a per-iteration counter (enumerate or +1 counter) and generation = per-round counter; the registered value mergers are +, max, min and the union fold (iterator or loop form, also in a private helper) is seeded with an element, never a constant; equal keys are resolved only through the merger in both phases, no pair de-duplication, no builder error swallowed; no mutable statics or unsafe Send/Sync, the collector drops its sender before draining.',
             'Does not decide equality of outputs over all schedules as an observation (thread interleavings are not explored); relies on associativity/commutativity of +, max, min and on crossbeam channel semantics.',
             'format-template decoding from compile-time constants + path-sensitive MIR rules + recognised-closure forms', '§4 C19'),
 })
